@@ -28,6 +28,10 @@ ASSUMPTIONS = ["E2/E5: AEON parsers for bnet/aeon/sbml and infer_valid_graph"]
 CASE_TIMEOUT = {"quick": 60, "thorough": 180}
 
 
+NAMES = 0.0          # this campaign relies on the names it generates
+FREE_INPUTS = 0.0
+
+
 def budget(tier):
     return 800 if tier == "quick" else 8000
 
